@@ -176,6 +176,21 @@ def run(tier, seed, replay=None):
         rng.shuffle(hs)
         sqls += [(s, d) for s in hs[: (120 if tier == 'quick' else 1000)]]
     sqls += [('select * from t', 'mindsdb'), ('select t.* , a.b from t', 'mindsdb'), ('select count(*) from a.b', 'mindsdb')]
+    # names and aliases that are not plain words (dots, spaces, keywords inside back quotes / double quotes)
+    sqls += [(q, d) for d in ('mindsdb', 'mysql') for q in (
+        'select t.price as `unit.price`, t.x as `a b`, t.y as `select` from orders as t',
+        'select `a.b`.`c d` as `e.f` from `g.h`.`i j` as `k.l` where `k.l`.`c d` = 1',
+        'select a as "x.y", b as "p q" from t', 'select * from (select 1 as `o.n`) as `s.q`',
+        'select f(a) as `r.s`, a + 1 as `t.u`, \'c\' as `v.w`, (select 1) as `y.z` from t',
+        'insert into `d.b`.`t.x` (`a.b`, `c d`) values (1, 2)', 'update `t.x` set `a.b` = 1 where `c d` = 2')]
+    import c01
+    muts = []
+    for s_, d_ in list(sqls):
+        for _ in range(1 if tier == 'quick' else 3):
+            m_ = c01.mutate(rng, s_, d_)
+            if m_:
+                muts.append((m_, d_))
+    sqls += muts
     rows = []
     evaluations = 0
     stats = {'shared_objects': 0, 'mutations': 0, 'mutations_visible_in_original': 0}
